@@ -59,16 +59,28 @@ func (cs treeCase) sample() map[string]any {
 
 type treeResult struct {
 	LoadErr string `json:"load_err,omitempty"`
+	Root    string `json:"-"` // scratch root the tree was written under
 	Result
+}
+
+// normalised returns s with the scratch root replaced (each materialisation
+// uses another directory).
+func (tr treeResult) normalised(s string) string {
+	if tr.Root == "" {
+		return s
+	}
+	return strings.ReplaceAll(s, tr.Root, "<root>")
 }
 
 // loadAndRender materialises the tree, loads it and renders the page.
 func loadAndRender(c *harness.Check, cs treeCase) treeResult {
 	var tr treeResult
-	if _, err := tree.Materialise(cs.tree()); err != nil {
+	root, err := tree.Materialise(cs.tree())
+	if err != nil {
 		tr.Err = "harness: " + err.Error()
 		return tr
 	}
+	tr.Root = root
 	tr.Panic = c.Guard("json", mustJSON(cs), func() {
 		textwire.VerifReset()
 		tpl, err := textwire.NewTemplate(&config.Config{TemplateDir: cs.Dir, TemplateExt: cs.Ext})
